@@ -120,7 +120,7 @@ def same_key(key):
 def run(ctx):
     ctx.level = "model_checking"
     scale = float(os.environ.get("VERIF_SCALE", "1"))  # development aid only
-    progs = build(ctx, int(ctx.pick(1500, 20000) * scale), int(ctx.pick(400, 4000) * scale),
+    progs = build(ctx, int(ctx.pick(1000, 20000) * scale), int(ctx.pick(250, 4000) * scale),
                   (ctx.pick(3, 4) if scale >= 1 else 2))
     jobs = lin_jobs(progs) + load_corpus()
     ctx.log(f"{len(jobs)} programs ({len(jobs) - len(progs)} from the corpus)")
